@@ -141,6 +141,13 @@ def nested_varying_cases():
             else:
                 outs = {"p": outer(a)[0], "q": outer(b)[0], "r": inner(a)[0]}
             out.append(B.Case({"a": a, "b": b, "c": c}, outs, False, {"nested_varying": f"{where}/{how}"}))
+    # one function NAME in two domains, each called only inside a control-flow body, the calls in SIBLING subgraphs of one graph
+    fa = to_function("Scale", "verif.lib_a")(lambda x: [op.mul(x, op.const(np.array([2, 2], np.float32)))])
+    fb = to_function("Scale", "verif.lib_b")(lambda x: [op.add(x, op.const(np.array([1, 1], np.float32)))])
+    a = B.argument(B.Tensor(np.float32, (2,)))
+    c = B.argument(B.Tensor(np.bool_, ()))
+    (r,) = op.if_(c, then_branch=lambda: list(fa(a)), else_branch=lambda: list(fb(a)))
+    out.append(B.Case({"a": a, "c": c}, {"r": r}, False, {"same_name_two_domains_in_sibling_branches": True}))
     # a function applied to a value of UNKNOWN RANK: a FunctionProto carries no types, nothing is demanded of the body's argument types
     f = to_function("Twice", "verif.nest")(lambda x: [op.add(x, x)])
     a = B.argument(B.Tensor(np.float32, (2,)))
